@@ -338,7 +338,26 @@ class Gen(object):
                            result="dur", client=client, mag=5)
         if r < 0.94:
             return self.op("tp.get", [a], ["year"], client=client)
-        if r < 0.96 and not ma.get("trunc") and ma.get("safe"):
+        if r < 0.95 and not ma.get("trunc"):
+            # values handed to the operator / dumper layer
+            which = rng.choice(["shift", "diff", "format", "reparse"])
+            if which == "shift":
+                return self.op("tp.dto_shift", [a], [rng.choice(
+                    ["P1D", "-PT1H", "P1M", "+P1W", "PT0S"])], result="tp",
+                    client=client, **self.tp_meta(a, safe=False))
+            if which == "diff":
+                b = self.pick("tp", trunc=False) or a
+                mag = abs(ma.get("year", 2000) - self.meta[b].get(
+                    "year", 2000)) * 366 + 2 + ma.get("drift", 0) + (
+                        self.meta[b].get("drift", 0))
+                return self.op("tp.dto_diff", [a, b], result="dur",
+                               client=client, mag=mag)
+            if which == "format":
+                return self.op("tp.dto_format", [a], [rng.choice(STRF)],
+                               client=client)
+            return self.op("tp.reparse", [a], result="tp", client=client,
+                           **self.tp_meta(a, safe=False))
+        if r < 0.97 and not ma.get("trunc") and ma.get("safe"):
             kw = rng.choice([{"hour_of_day": 6}, {"minute_of_hour": 30},
                              {"day_of_month": 15}, {"day_of_week": 3},
                              {"day_of_year": 45}, {"month_of_year": 3},
@@ -707,6 +726,14 @@ class Sim(object):
                 return a.get(sc[0])
             if meth == "add_truncated":
                 return a.add_truncated(**sc[0])
+            if meth == "dto_shift":
+                return self.dto.date_shift(a, sc[0])
+            if meth == "dto_diff":
+                return self.dto.date_diff(a, ops[1])[0]
+            if meth == "dto_format":
+                return self.dto.date_format(sc[0], a)
+            if meth == "reparse":
+                return self.parsers["std"].parse(str(a))
             val = getattr(a, meth)
             return val() if callable(val) else val
         if kind in ("dur", "tz"):
@@ -843,6 +870,8 @@ class Sim(object):
                 default_to_unknown_time_zone=True)}
         self.dparser = parsers.DurationParser()
         self.rparser = parsers.TimeRecurrenceParser()
+        from metomi.isodatetime.datetimeoper import DateTimeOperator
+        self.dto = DateTimeOperator(calendar_mode=trace["mode"])
         self.api_sweep()
         classes = lib_classes()
         for step_no, step in enumerate(trace["steps"]):
